@@ -236,7 +236,7 @@ func replay(c *ev.Ctx) {
 			}
 		}
 	}
-	acc, finished, site, msg := certs.RunSingle(c, id, w.Mode, w, base, seed, 120*time.Second)
+	acc, finished, site, msg := certs.RunSingle(c, id, w.Mode, w, base, seed, w.Light, 120*time.Second)
 	c.States.Add(1)
 	switch {
 	case !finished:
